@@ -26,7 +26,7 @@ def flag_locals(body):
                 ok = False
                 break
             r = d[3]["r"]
-            if not (r["k"] == "use" and r["op"]["k"] == "const" and r["op"]["text"] in ("const true", "const false")):
+            if not (r["k"] == "use" and r["op"]["k"] == "const" and r["op"]["text"] in ("const true", "const false", "true", "false")):
                 ok = False
                 break
         if ok and 1 > 0 and l > body.arg_count:
@@ -47,7 +47,7 @@ def flag_states(body):
         st = {f: set(v) for f, v in st.items()}
         for s in body.blocks[b]["stmts"]:
             if s["k"] == "assign" and not s["p"]["proj"] and s["p"]["local"] in flags:
-                st[s["p"]["local"]] = {s["r"]["op"]["text"] == "const true"}
+                st[s["p"]["local"]] = {s["r"]["op"]["text"] in ("const true", "true")}
         return st
 
     while work:
@@ -103,7 +103,7 @@ def feasible_blocks(body):
                 cur = {x: set(v) for x, v in state[b].items()}
                 for s in body.blocks[b]["stmts"]:
                     if s["k"] == "assign" and not s["p"]["proj"] and s["p"]["local"] in flags:
-                        cur[s["p"]["local"]] = {s["r"]["op"]["text"] == "const true"}
+                        cur[s["p"]["local"]] = {s["r"]["op"]["text"] in ("const true", "true")}
                 vals = [v for v, _ in t["targets"]]
                 allowed = ({True, False} - {bool(v) for v in vals}) if lab[1] == "otherwise" else {bool(lab[1])}
                 if not (cur[f] & allowed):
